@@ -78,6 +78,7 @@ class Ctx:
         self.inputs = {}      # name -> z3 const (declared inputs, for model extraction)
         self.uf_terms = {}    # uf name -> list of (args, result) for axiom instantiation
         self.notes = []
+        self.prefs = []       # z3 formulas a replay model should satisfy if it can (never part of a query that decides)
         self.model = None     # a model of the current pc (or None): saves the feasibility query of the side it satisfies
 
     def model_says(self, cond):
